@@ -177,22 +177,46 @@ func c07CompactOrder(e *Env) {
 		return false
 	}
 	nOrig := 0
-	for _, ci := range ir.CallsIn(fn, func(c *ssa.CallCommon) bool { return ir.IsCallTo(c, "os.Remove", "os.RemoveAll") }) {
-		arg := ir.Resolve(ci.Common().Args[0])
-		lits := e.DCS(ci)
-		if arg == orig {
-			nOrig++
-			r.Check(writeOK(lits), "Compact: os.Remove(original) only under write(copy)==nil", e.InstrPos(ci),
-				"the original run file can be removed although the compacted copy was not written successfully", e.FactsStr("dominating conditions: ", lits))
-			bad, _ := ir.Bypass(ci, nil, ir.PathQuery{Bad: func(in ssa.Instruction) bool {
-				c, ok := in.(ssa.CallInstruction)
-				return ok && ir.IsCallTo(c.Common(), "os.Rename", "os.Link", "os.Symlink")
-			}})
-			r.Check(bad == nil, "Compact: nothing is renamed after the original was removed", e.InstrPos(ci),
-				"the compacted data gets its final name only after the original was removed: a crash in between leaves the run under a name no query matches")
-		} else {
-			r.Check(!writeOK(lits), "Compact: the copy is removed only on the write-error path", e.InstrPos(ci),
-				"the compacted copy is removed on the success path")
+	// Compact with the helpers of the store it alone calls (their parameters stand for
+	// its arguments); a removal of `a or b` is judged per alternative, under the
+	// conditions of the branch that chose it
+	var scope []*ssa.Function
+	for _, g := range e.withPkgHelpers(fn) {
+		if rootFn(g) == fn || ir.UniqueSite(rootFn(g)) != nil {
+			scope = append(scope, g)
+		}
+	}
+	type remAlt struct {
+		v    ssa.Value
+		lits []ir.NLit
+	}
+	for _, g := range scope {
+		for _, ci := range ir.CallsIn(g, func(c *ssa.CallCommon) bool { return ir.IsCallTo(c, "os.Remove", "os.RemoveAll") }) {
+			arg := ir.Resolve(ci.Common().Args[0])
+			alts := []remAlt{{arg, e.DCS(ci)}}
+			if ph, isPhi := arg.(*ssa.Phi); isPhi {
+				alts = nil
+				for k, ev := range ph.Edges {
+					alts = append(alts, remAlt{ev, append(append([]ir.NLit{}, e.DCS(ci)...), e.DCSPhiEdge(ph.Block(), k)...)})
+				}
+			}
+			for _, a := range alts {
+				lits := a.lits
+				if ir.Deep(a.v) == ir.Deep(orig) {
+					nOrig++
+					r.Check(writeOK(lits), "Compact: os.Remove(original) only under write(copy)==nil", e.InstrPos(ci),
+						"the original run file can be removed although the compacted copy was not written successfully", e.FactsStr("dominating conditions: ", lits))
+					bad, _ := ir.Bypass(ci, nil, ir.PathQuery{Bad: func(in ssa.Instruction) bool {
+						c, ok := in.(ssa.CallInstruction)
+						return ok && ir.IsCallTo(c.Common(), "os.Rename", "os.Link", "os.Symlink")
+					}})
+					r.Check(bad == nil, "Compact: nothing is renamed after the original was removed", e.InstrPos(ci),
+						"the compacted data gets its final name only after the original was removed: a crash in between leaves the run under a name no query matches")
+				} else {
+					r.Check(!writeOK(lits), "Compact: the copy is removed only on the write-error path", e.InstrPos(ci),
+						"the compacted copy is removed on the success path")
+				}
+			}
 		}
 	}
 	if nOrig == 0 {
@@ -200,9 +224,11 @@ func c07CompactOrder(e *Env) {
 	}
 	// the copy's target name ends with the extension the glob patterns select
 	okName := false
-	for _, ev := range e.C.FieldStores(fn, "target") {
-		if suf, ok := strSuffix(e, ev.Val, 0); ok && strings.HasSuffix(suf, ".dat") {
-			okName = true
+	for _, g := range scope {
+		for _, ev := range e.C.FieldStores(g, "target") {
+			if suf, ok := strSuffix(e, ev.Val, 0); ok && strings.HasSuffix(suf, ".dat") {
+				okName = true
+			}
 		}
 	}
 	// the writer may be built by a helper that is handed the name (`openWriter(compacted)`)
